@@ -164,6 +164,8 @@ func (e *Engine) globalPrelude(axioms []string) string {
 		fmt.Fprintf(&sb, "(declare-fun box_%s (%s) Int)\n(declare-fun unbox_%s (Int) %s)\n", sn, b, sn, b)
 		fmt.Fprintf(&sb, "(assert (forall ((x %s)) (! (= (unbox_%s (box_%s x)) x) :pattern ((box_%s x)))))\n", b, sn, sn, sn)
 	}
+	// the indexing function over Int elements is part of the spec vocabulary (raw SMT axioms mention it)
+	e.elemFn("Int")
 	var els []string
 	for b := range e.elems {
 		els = append(els, b)
